@@ -1757,6 +1757,10 @@ def c06_consumer(rng, shape):
     if shape == "operand_evaluated_once":
         return ("func mk@(x int) Iter[int] {\n\trt.Emit(rt.EFF, 690)\n\treturn GC@(x, 1)\n}\n\n" +
                 head + "\tfor v := range mk@(a) {\n%s\n\t}\n" % indent(c06_loop_body(rng, "v"), 2) + tail)
+    if shape == "first_match_nested":
+        return head + "\tfor k := 0; k < 2; k++ {\n\t\tfor v := range %s {\n\t\t\tif v&1 == 1 {\n\t\t\t\tcontinue\n\t\t\t}\n\t\t\tif g1 && v > a {\n\t\t\t\tbreak\n\t\t\t}\n\t\t\tt = (t << 1) ^ v\n\t\t\tbreak\n\t\t}\n\t\trt.Emit(48, k)\n\t}\n" % fin + tail
+    if shape == "first_element":
+        return head + "\tfor v := range %s {\n\t\tt = v\n\t\tbreak\n\t}\n\tfor k := 0; k < 2; k++ {\n\t\tfor w := range %s {\n\t\t\tif g2 {\n\t\t\t\tcontinue\n\t\t\t}\n\t\t\tt = (t << 1) ^ w\n\t\t\tbreak\n\t\t}\n\t}\n" % (src, fin) + tail
     if shape == "param_pass":
         return ("func drain@(it Iter[int], lim int, g bool) int {\n\tt := 0\n\tfor v := range it {\n\t\tt = (t << 1) ^ v\n\t\tlim--\n\t\tif lim <= 0 || (g && v > 5) {\n\t\t\tbreak\n\t\t}\n\t}\n\treturn t\n}\n\n" +
                 head + "\tit := %s\n\tt = drain@(it, 2, g1)\n\trt.Emit(46, t)\n\tt = (t << 1) ^ drain@(it, 2, g2)\n" % src + tail)
@@ -1764,7 +1768,8 @@ def c06_consumer(rng, shape):
 
 
 C06_SHAPES = ["range_define", "range_assign", "nested", "pull_then_range", "range_then_pull", "struct_field", "map_slice", "closure_pull", "generic_take", "param_pass",
-              "field_reassigned_in_loop", "index_changed_in_loop", "map_entry_reassigned_in_loop", "operand_evaluated_once"]
+              "field_reassigned_in_loop", "index_changed_in_loop", "map_entry_reassigned_in_loop", "operand_evaluated_once",
+              "first_match_nested", "first_element"]
 
 
 def c06_programs(rng, per_shape):
@@ -1795,6 +1800,19 @@ func dbl@(x int) int        { return x + x }
 func sub@(x, y int) int     { return x - y }
 func join3@(x, y, z int) int { return (x << 2) ^ (y << 1) ^ z }
 
+type myErr@ struct{}
+
+func (*myErr@) Error() string { return "e" }
+func mayFail@() *myErr@   { return nil }
+func sum3@(xs ...int) int {
+	t := 0
+	for _, x := range xs {
+		t += x
+	}
+	return t
+}
+func wide@(x int) int64 { return int64(x) + 1 }
+
 const k@ = 7
 
 var tbl@ = []int{3, 1, 4, 1, 5}
@@ -1815,6 +1833,10 @@ C13_BODIES = [
     ("eta_funcvar_param", "apply := func(h func(int) int) func(int) int {\n\tw := func(x int) int { return h(x) }\n\th = func(x int) int { return x + 30 }\n\treturn w\n}\nreturn apply(func(x int) int { return x + 1 })(a) + b"),
     ("eta_funcvar_addr_taken", "h := func(x int) int { return x + 1 }\nf := func(x int) int { return h(x) }\np := &h\nr := f(a)\n*p = func(x int) int { return x + 40 }\nreturn (r << 4) ^ f(b)"),
     ("eta_funcvar_range_assign", "h := func(x int) int { return x + 1 }\nf := func(x int) int { return h(x) }\nr := f(a)\nfor _, h = range []func(int) int{func(x int) int { return x + 50 }} {\n}\nreturn (r << 4) ^ f(b)"),
+    ("eta_result_interface_conversion", "f := func() error { return mayFail@() }\nr := 0\nif f() != nil {\n\tr = 1\n}\nvar e error = f()\nif e == nil {\n\tr += 2\n}\nreturn r + a"),
+    ("eta_variadic_vs_slice", "f := func(xs []int) int { return sum3@(xs...) }\ng := func(x, y int) int { return sum3@(x, y) }\nreturn f([]int{a, b}) + g(a, 1)"),
+    ("eta_unnamed_and_blank_params", "f := func(_ int, y int) int { return dbl@(y) }\ng := func(x int, _ int) int { return dbl@(x) }\nreturn (f(a, b) << 4) ^ g(a, b)"),
+    ("eta_named_func_type", "type fn func(int) int\nvar f fn = func(x int) int { return dbl@(x) }\nvar g any = func(x int) int { return dbl@(x) }\n_, isFn := g.(fn)\nr := f(a)\nif isFn {\n\tr++\n}\nreturn r"),
     ("eta_permuted", "flip := func(x, y int) int { return sub@(y, x) }\nsame := func(x, y int) int { return sub@(x, y) }\nreturn (flip(a, b) << 8) ^ same(a, b)"),
     ("eta_duplicated", "dup := func(x, y int) int { return sub@(y, y) }\nfst := func(x, y int) int { return dbl@(x) }\nreturn (dup(a, b) << 8) ^ fst(a, b)"),
     ("eta_rotated3", "rot := func(x, y, z int) int { return join3@(z, x, y) }\nreturn rot(a, b, a + b)"),
@@ -2199,3 +2221,56 @@ def c17_programs(n, dmax):
     p.standalone_full = (C17_DELEG % {"n": dmax}).replace("@", pid)
     progs.append(p)
     return progs
+
+
+C04_TYPEPARAM = """func gt@[S ~[]int, M ~map[int]int, T ~string](s S, m M, str T, n int, g1 bool) (_ Iter[int]) {
+	t := 0
+	for i, v := range s {
+		if v&1 == 1 {
+			continue
+		}
+		if i > n {
+			break
+		}
+		t += v
+	}
+	Yield(t)
+	for i := 0; i < 2; i++ {
+		for _, v := range s {
+			if g1 && v > 3 {
+				break
+			}
+			if v&1 == 0 {
+				continue
+			}
+			t += v + i
+		}
+		Yield(t + i)
+	}
+	for _, r := range str {
+		if r == 'b' {
+			break
+		}
+		t += int(r)
+	}
+	Yield(t + 1)
+	for k := range m {
+		if k == 2 {
+			continue
+		}
+		t += k
+	}
+	Yield(t + 2)
+	return
+}
+
+func G@(a, b, n int, g1, g2, g3 bool) Iter[int] {
+	return gt@([]int{a, b, a + b}, map[int]int{1: a, 2: b}, "abc", n, g1)
+}
+"""
+
+
+def c04_typeparam_programs():
+    p = Program("tp_ranges", [("yield", "a")], family="rng_typeparam", tags={"range:typeparam", "map-order"})
+    p.standalone = C04_TYPEPARAM
+    return [p]
